@@ -482,3 +482,274 @@ Section OneCell.
   Lemma oc_inlog c : c <> k -> (inlog g' c <-> inlog g c).
   Proof. intros H. unfold inlog. rewrite (oc_zlog _ _ _ O), (oc_cs _ _ _ O c H). tauto. Qed.
 End OneCell.
+
+(* thread t moves from l to l' (inside the release code: no private record) while one cell k of the log changes *)
+Lemma InvB_onecell g g' ls t l l' k :
+  InvA g ls -> InvB g ls -> nth_error ls t = Some l -> onecell g g' k -> In k (zlog g) ->
+  priv_rec (at_ l) = None -> priv_rec (at_ l') = None ->
+  (hnd l' = hnd l \/ (hnd l' = None /\ exists w, hnd l = Some (w, Some k))) ->
+  (forall z nxt, at_ l = U_zf z nxt -> z = k) ->
+  (* cell k *)
+  (cs_of g' k = Some Constr \/ cs_of g' k = Some Freed \/ (cs_of g' k = Some Destr /\ exists nxt, at_ l' = U_zf k nxt)) ->
+  (zhead g = Some k -> cs_of g' k = Some Constr) ->
+  (inlog g' k -> inlog g k) ->
+  (zown g k = None -> zown g' k = None) ->
+  (forall u w, hnd (locof (upd ls t l') u) = Some (w, Some k) -> cs_of g' k = Some Constr /\ zown g' k = Some (guard_of u w)) ->
+  (forall gd, inlog g' k -> zown g' k = Some gd -> exists u w, gd = guard_of u w /\ hnd (locof (upd ls t l') u) = Some (w, Some k)) ->
+  (znd g' k = znd g k) ->
+  (* the links *)
+  (forall a, inlog g' a -> ~ stale g' (upd ls t l') a -> link_ok g' a) ->
+  (* other threads: k is not their pointer, unless they only look at it while scanning *)
+  (forall u lu, u <> t -> nth_error ls u = Some lu ->
+     (in_unlock (at_ lu) = true -> own_rec lu <> k \/ znx g' k = znx g k) /\
+     (forall m, scan_pc (at_ lu) = Some m -> m = k -> inlog g k -> inlog g' k) /\
+     (forall n, region_pc (at_ lu) = Some n -> n <> k)) ->
+  thrB g' t l' ->
+  InvB g' (upd ls t l').
+Proof.
+  intros IA IB Hl O Hk Hp Hp' Hh Hzf Hcs Htop Hin Hun Hown1 Hown2 Hznd Hlink Hoth Ht.
+  pose proof (oc_zlog _ _ _ O) as EL.
+  assert (Eloc : forall u, u <> t -> locof (upd ls t l') u = locof ls u).
+  { intros u Hu. rewrite (locof_upd _ _ _ _ _ Hl). destruct (Nat.eqb_spec u t); [contradiction|reflexivity]. }
+  assert (Eloct : locof (upd ls t l') t = l') by (rewrite (locof_upd _ _ _ _ _ Hl), Nat.eqb_refl; reflexivity).
+  assert (Elt : locof ls t = l) by (apply locof_at; exact Hl).
+  assert (Hhnd : forall u w z, z <> k -> hnd (locof (upd ls t l') u) = Some (w, Some z) -> hnd (locof ls u) = Some (w, Some z)).
+  { intros u w z Hz H. destruct (Nat.eq_dec u t) as [->|Hu]; [|rewrite (Eloc u Hu) in H; exact H].
+    rewrite Eloct in H. rewrite Elt. destruct Hh as [E|[E _]]; [rewrite <- E; exact H|congruence]. }
+  assert (Hhnd' : forall u w z, z <> k -> hnd (locof ls u) = Some (w, Some z) -> hnd (locof (upd ls t l') u) = Some (w, Some z)).
+  { intros u w z Hz H. destruct (Nat.eq_dec u t) as [->|Hu]; [|rewrite (Eloc u Hu); exact H].
+    rewrite Eloct. rewrite Elt in H. destruct Hh as [E|[_ (w' & E)]]; [rewrite E; exact H|congruence]. }
+  constructor.
+  - rewrite EL. apply (b_nodup _ _ IB).
+  - intros z Hz. rewrite EL in Hz. rewrite (oc_isrec _ _ _ O). apply (b_rec _ _ IB z Hz).
+  - intros z Hz. rewrite EL in Hz. destruct (Nat.eq_dec z k) as [->|Hzk].
+    + destruct Hcs as [A|[A|(A & nxt & B)]]; auto. right. right. split; [exact A|]. exists t, nxt.
+      rewrite (pcof_upd _ _ _ _ _ Hl), Nat.eqb_refl. exact B.
+    + rewrite (oc_cs _ _ _ O z Hzk). destruct (b_cs _ _ IB z Hz) as [A|[A|(A & u & nxt & B)]]; auto.
+      right. right. split; [exact A|]. exists u, nxt. rewrite (pcof_upd _ _ _ _ _ Hl).
+      destruct (Nat.eqb_spec u t) as [->|]; [|exact B]. exfalso. apply Hzk. apply (Hzf z nxt). rewrite <- (pcof_at _ _ _ Hl). exact B.
+  - rewrite (oc_zhead _ _ _ O), EL. apply (b_head _ _ IB).
+  - intros h Hh0. rewrite (oc_zhead _ _ _ O) in Hh0. destruct (Nat.eq_dec h k) as [->|Hhk]; [auto|].
+    rewrite (oc_cs _ _ _ O h Hhk). apply (b_top _ _ IB h Hh0).
+  - exact Hlink.
+  - intros u w z Hz. destruct (Nat.eq_dec z k) as [->|Hzk].
+    + destruct (Hown1 u w Hz) as [A B]. rewrite EL. auto.
+    + destruct (b_own1 _ _ IB u w z (Hhnd u w z Hzk Hz)) as (A & B & C).
+      rewrite EL, (oc_cs _ _ _ O z Hzk), (oc_zown _ _ _ O z Hzk). auto.
+  - intros z gd Hz Hg. destruct (Nat.eq_dec z k) as [->|Hzk]; [apply Hown2; auto|].
+    apply (oc_inlog _ _ _ O z Hzk) in Hz. rewrite (oc_zown _ _ _ O z Hzk) in Hg.
+    destruct (b_own2 _ _ IB z gd Hz Hg) as (u & w & A & B). exists u, w. split; [exact A|apply Hhnd'; auto].
+  - intros z j Hz Hj. rewrite EL in Hz. rewrite (oc_isnode _ _ _ O).
+    destruct (Nat.eq_dec z k) as [->|Hzk]; [rewrite Hznd in Hj|rewrite (oc_znd _ _ _ O z Hzk) in Hj]; apply (b_node _ _ IB _ j Hz Hj).
+  - intros u v z Hu Hv. rewrite (pcof_upd _ _ _ _ _ Hl) in Hu. rewrite (pcof_upd _ _ _ _ _ Hl) in Hv.
+    destruct (Nat.eqb_spec u t) as [->|Hut]; [congruence|]. destruct (Nat.eqb_spec v t) as [->|Hvt]; [congruence|].
+    apply (b_priv _ _ IB u v z); auto.
+  - intros u lu Hu. apply nth_upd in Hu. destruct Hu as [(-> & -> & _)|(Hne & Hu)]; [exact Ht|].
+    assert (Hut : u <> t) by auto.
+    destruct (Hoth u lu Hut Hu) as (H1 & H2 & H3).
+    apply (thrB_env g g' u lu); try (apply (b_thr _ _ IB u lu Hu)).
+    + intros c Hc. rewrite EL. split; [exact Hc|apply (oc_zsq _ _ _ O)].
+    + intros c Hc. left. destruct (Nat.eq_dec c k) as [->|Hck]; [auto|apply (oc_inlog _ _ _ O c Hck); exact Hc].
+    + intros c Hc Ho. destruct (Nat.eq_dec c k) as [->|Hck]; [auto|rewrite (oc_zown _ _ _ O c Hck); exact Ho].
+    + intros j. rewrite (oc_isnode _ _ _ O). auto.
+    + intros z Hz. assert (z <> k) as Hzk.
+      { intros ->. pose proof (b_thr _ _ IB u lu Hu) as T. unfold thrB in T.
+        destruct (at_ lu); cbn in Hz; try discriminate; inversion Hz; subst; unfold privR in T; tauto. }
+      rewrite (oc_isrec _ _ _ O), (oc_cs _ _ _ O z Hzk), (oc_grec _ _ _ O z Hzk), EL. tauto.
+    + intros Hul. destruct (own_in_log g ls u lu IA IB Hu Hul) as [A _]. split; [exact A|].
+      destruct (H1 Hul) as [B|B]; [apply (oc_znx _ _ _ O); exact B|].
+      destruct (Nat.eq_dec (own_rec lu) k) as [->|Hne']; [exact B|apply (oc_znx _ _ _ O); exact Hne'].
+    + intros m Hm Hi. destruct (Nat.eq_dec m k) as [->|Hmk]; [apply (H2 k Hm eq_refl Hi)|apply (oc_inlog _ _ _ O m Hmk); exact Hi].
+    + intros n Hn. specialize (H3 n Hn). rewrite (oc_cs _ _ _ O n H3), (oc_grec _ _ _ O n H3). tauto.
+Qed.
+
+Lemma link_ok_same g g' a :
+  (forall c, inlog g' c -> inlog g c) -> (forall c, zsq g' c = zsq g c) -> znx g' a = znx g a ->
+  (forall b, znx g a = Some b -> inlog g' b) ->
+  link_ok g a -> link_ok g' a.
+Proof.
+  intros Hi Hs Hx Hb H. unfold link_ok in *. rewrite Hx. destruct (znx g a) as [b|] eqn:E.
+  - destruct H as (A & B & C). rewrite !Hs. split; [apply Hb; reflexivity|split; [exact B|]].
+    intros c Hc. rewrite !Hs. apply C. apply Hi. exact Hc.
+  - intros c Hc. rewrite !Hs. apply H. apply Hi. exact Hc.
+Qed.
+Lemma region_same g g' a n :
+  (forall c, inlog g' c -> inlog g c) -> (forall c, zsq g' c = zsq g c) ->
+  (forall c, inlog g' c -> zown g c = None -> zown g' c = None) -> inlog g' n ->
+  region g a n -> region g' a n.
+Proof.
+  intros Hi Hs Ho Hn (A & B & C & D). unfold region. rewrite !Hs. split; [exact Hn|split; [exact B|split]].
+  - intros c Hc. rewrite !Hs. apply C. apply Hi. exact Hc.
+  - intros c Hc Hlt. rewrite Hs in Hlt. apply Ho; [exact Hc|]. apply D; [apply Hi; exact Hc|exact Hlt].
+Qed.
+
+Lemma head_stamp g ls h : InvB g ls -> zhead g = Some h -> In h (zlog g) /\ zsq g h = length (zlog g).
+Proof.
+  intros IB H. pose proof (b_head _ _ IB) as E. rewrite H in E. unfold zsq. destruct (zlog g) as [|x r]; [discriminate|].
+  cbn in E. inversion E; subst x. split; [left; reflexivity|]. cbn. rewrite Nat.eqb_refl. reflexivity.
+Qed.
+
+(* ---------- U_zd: the record under the reclaimer's pointer is destroyed ---------- *)
+Lemma stepB_U_zd g ls t pr n nxt h its0 :
+  InvA g ls -> InvB g ls -> nth_error ls t = Some (Loc pr (U_zd n nxt) h its0) ->
+  InvB (fst (do_destroy g n)) (upd ls t (Loc pr (U_zf n nxt) h its0)).
+Proof.
+  intros IA IB Hl. set (l := Loc pr (U_zd n nxt) h its0) in *. set (g' := fst (do_destroy g n)).
+  pose proof (b_thr _ _ IB t l Hl) as T. unfold thrB in T. cbn [at_ l] in T. destruct T as (Rg & Cs & Enx).
+  destruct (onecell_destroy g n) as [O Eg]. fold g' in O, Eg.
+  pose proof Rg as (Rn & Rlt & Rbt & Run).
+  assert (Ecs : cs_of g' n = Some Destr) by (unfold g'; rewrite cs_of_destroy, Nat.eqb_refl, Cs; reflexivity).
+  assert (Hin : forall c, inlog g' c <-> inlog g c).
+  { intros c. destruct (Nat.eq_dec c n) as [->|Hc]; [|apply (oc_inlog _ _ _ O c Hc)].
+    unfold inlog. rewrite (oc_zlog _ _ _ O), Ecs, Cs. split; intros [A _]; split; auto; discriminate. }
+  assert (Hgr : forall c, grec g' c = grec g c).
+  { intros c. destruct (Nat.eq_dec c n) as [->|Hc]; [exact Eg|apply (oc_grec _ _ _ O c Hc)]. }
+  destruct (own_facts g ls IA IB t l Hl eq_refl) as (Ia & Oa & (w & Eh)). cbn [hnd l] in Eh.
+  eapply (InvB_onecell g g' ls t l _ n IA IB Hl O (inlog_In _ _ Rn)); try reflexivity.
+  - left. reflexivity.
+  - intros z nx0 E. discriminate.
+  - right. right. split; [exact Ecs|]. exists nxt. reflexivity.
+  - intros Hh. exfalso. destruct (head_stamp g ls n IB Hh) as [_ E]. pose proof (zsq_pos g _ (inlog_In _ _ Ia)). lia.
+  - intros _. exact Rn.
+  - intros Ho. unfold zown. rewrite Hgr. exact Ho.
+  - intros u w0 Hu. exfalso. assert (hnd (locof ls u) = Some (w0, Some n)) as Hu'.
+    { rewrite (locof_upd _ _ _ _ _ Hl) in Hu. destruct (Nat.eqb_spec u t) as [->|]; [rewrite (locof_at _ _ _ Hl); exact Hu|exact Hu]. }
+    destruct (b_own1 _ _ IB u w0 n Hu') as (_ & _ & C). rewrite (Run n Rn Rlt) in C. discriminate.
+  - intros gd _ Hg. exfalso. unfold zown in Hg. rewrite Hgr in Hg. fold (zown g n) in Hg. rewrite (Run n Rn Rlt) in Hg. discriminate.
+  - unfold znd. rewrite Hgr. reflexivity.
+  - intros a Ha Hns. apply Hin in Ha. apply (link_ok_same g g' a).
+    + intros c Hc. apply Hin. exact Hc.
+    + apply (oc_zsq _ _ _ O).
+    + unfold znx. rewrite Hgr. reflexivity.
+    + intros b Hb. apply Hin. pose proof (b_link _ _ IB a Ha) as L.
+      assert (~ stale g ls a) as Hns'.
+      { intros (u & w0 & A & B). apply Hns. exists u, w0. unfold pcof in *. rewrite (locof_upd _ _ _ _ _ Hl).
+        destruct (Nat.eqb_spec u t) as [->|]; [|auto]. rewrite (locof_at _ _ _ Hl) in A, B. auto. }
+      specialize (L Hns'). unfold link_ok in L. rewrite Hb in L. apply L.
+    + apply (b_link _ _ IB a Ha). intros (u & w0 & A & B). apply Hns. exists u, w0. unfold pcof in *. rewrite (locof_upd _ _ _ _ _ Hl).
+      destruct (Nat.eqb_spec u t) as [->|]; [|auto]. rewrite (locof_at _ _ _ Hl) in A, B. auto.
+  - intros u lu Hut Hu. split; [|split].
+    + intros Hul. left. destruct (own_facts g ls IA IB u lu Hu Hul) as (Iu & Ou & _).
+      apply (owned_not_pointer g ls IB t l n (own_rec lu) Hl eq_refl Iu Ou).
+    + intros m1 Hm1 E1 _. subst m1. apply Hin. exact Rn.
+    + intros m' Hm' ->. apply Hut. apply (one_reclaimer g ls IA IB u t lu l n n Hu Hl Hm' eq_refl).
+  - unfold thrB. cbn [at_ own_rec hnd]. split; [|split; [exact Ecs|unfold znx; rewrite Hgr; exact Enx]].
+    apply (region_same g g'); auto.
+    + intros c Hc. apply Hin. exact Hc.
+    + apply (oc_zsq _ _ _ O).
+    + intros c _ Ho. unfold zown. rewrite Hgr. exact Ho.
+    + apply Hin. exact Rn.
+Qed.
+
+Lemma thrB_reclaim_at g u pr h its0 m :
+  region g (own_rec (Loc pr Idle h its0)) m -> cs_of g m = Some Constr ->
+  thrB g u (Loc pr (reclaim_at g m) h its0).
+Proof.
+  intros R C. unfold thrB, reclaim_at. cbn [at_]. unfold own_rec in *. cbn [hnd] in *.
+  destruct (znode (grec g m)) as [d|] eqn:E; [|destruct (unfixed g)]; cbn; unfold znd; rewrite ?E; auto.
+Qed.
+Lemma rpc_reclaim_at g m : rpc (reclaim_at g m) = true.
+Proof. unfold reclaim_at. destruct (znode (grec g m)); [reflexivity|destruct (unfixed g); reflexivity]. Qed.
+Lemma not_zf_reclaim_at g m z nxt : reclaim_at g m = U_zf z nxt -> False.
+Proof. unfold reclaim_at. destruct (znode (grec g m)); [discriminate|destruct (unfixed g); discriminate]. Qed.
+
+(* the pointer of a reclaimer is Constr unless it is the reclaimer's own U_zf pointer *)
+Lemma inlog_constr g ls t l m : InvA g ls -> InvB g ls -> nth_error ls t = Some l ->
+  in_unlock (at_ l) = true -> region_pc (at_ l) <> Some m ->
+  (forall u lu n, u <> t -> nth_error ls u = Some lu -> region_pc (at_ lu) = Some n -> False) ->
+  inlog g m -> cs_of g m = Some Constr.
+Proof.
+  intros IA IB Hl Hu Hm Hone [A B]. destruct (b_cs _ _ IB m A) as [C|[C|(C & u & nxt & D)]]; [exact C|congruence|].
+  exfalso. destruct (Nat.eq_dec u t) as [->|Hut].
+  - rewrite (pcof_at _ _ _ Hl) in D. apply Hm. rewrite D. reflexivity.
+  - unfold pcof, locof in D. destruct (nth_error ls u) as [lu|] eqn:Eu; [|discriminate].
+    apply (Hone u lu m Hut Eu). rewrite D. reflexivity.
+Qed.
+
+(* ---------- U_zf: the record under the pointer is deallocated; the pointer moves on ---------- *)
+Lemma stepB_U_zf g ls t pr n nxt h its0 :
+  InvA g ls -> InvB g ls -> nth_error ls t = Some (Loc pr (U_zf n nxt) h its0) ->
+  let g' := fst (do_dealloc g n) in
+  InvB g' (upd ls t (Loc pr (match nxt with Some m => reclaim_at g' m | None => U_stn end) h its0)).
+Proof.
+  intros IA IB Hl g'. set (l := Loc pr (U_zf n nxt) h its0) in *.
+  pose proof (b_thr _ _ IB t l Hl) as T. unfold thrB in T. cbn [at_ l] in T. destruct T as (Rg & Cs & Enx).
+  destruct (onecell_dealloc g n) as [O Eg]. fold g' in O, Eg.
+  pose proof Rg as (Rn & Rlt & Rbt & Run).
+  assert (Ecs : cs_of g' n = Some Freed) by (unfold g'; rewrite cs_of_dealloc, Nat.eqb_refl, Cs; reflexivity).
+  assert (Hin : forall c, inlog g' c <-> (inlog g c /\ c <> n)).
+  { intros c. destruct (Nat.eq_dec c n) as [->|Hc].
+    - unfold inlog. rewrite Ecs. split; [intros [_ A]; congruence|tauto].
+    - rewrite (oc_inlog _ _ _ O c Hc). tauto. }
+  assert (Hgr : forall c, grec g' c = grec g c).
+  { intros c. destruct (Nat.eq_dec c n) as [->|Hc]; [exact Eg|apply (oc_grec _ _ _ O c Hc)]. }
+  assert (Hsq : forall c, zsq g' c = zsq g c) by (apply (oc_zsq _ _ _ O)).
+  destruct (own_facts g ls IA IB t l Hl eq_refl) as (Ia & Oa & (w & Eh)). cbn [hnd l] in Eh.
+  set (a := own_rec l) in *.
+  assert (Hone : forall u lu m, u <> t -> nth_error ls u = Some lu -> region_pc (at_ lu) = Some m -> False).
+  { intros u lu m Hut Hu Hm. apply Hut. apply (one_reclaimer g ls IA IB u t lu l m n Hu Hl Hm eq_refl). }
+  assert (Hnst : ~ stale g ls n) by (apply (unowned_not_stale g ls IB n Rn); apply (Run n Rn Rlt)).
+  pose proof (b_link _ _ IB n Rn Hnst) as Ln. unfold link_ok in Ln. rewrite <- Enx in Ln.
+  set (p' := match nxt with Some m => reclaim_at g' m | None => U_stn end).
+  assert (Hrp : rpc p' = true) by (unfold p'; destruct nxt; [apply rpc_reclaim_at|reflexivity]).
+  assert (Hstale : forall x, stale g ls x -> stale g' (upd ls t (Loc pr p' h its0)) x).
+  { intros x (u & w0 & A & B). exists u, w0. unfold pcof in *. rewrite (locof_upd _ _ _ _ _ Hl).
+    destruct (Nat.eqb_spec u t) as [->|]; [|auto]. rewrite (locof_at _ _ _ Hl) in A, B. cbn [hnd at_ l] in *. auto. }
+  eapply (InvB_onecell g g' ls t l _ n IA IB Hl O (inlog_In _ _ Rn)); try reflexivity.
+  - unfold p'. cbn [at_]. destruct nxt; [|reflexivity]. unfold reclaim_at. destruct (znode (grec g' n0)); [reflexivity|destruct (unfixed g'); reflexivity].
+  - left. reflexivity.
+  - intros z nx0 E. inversion E. reflexivity.
+  - right. left. exact Ecs.
+  - intros Hh. exfalso. destruct (head_stamp g ls n IB Hh) as [_ E]. pose proof (zsq_pos g _ (inlog_In _ _ Ia)). fold a in Rlt. lia.
+  - intros Hi. apply Hin in Hi. tauto.
+  - intros Ho. unfold zown. rewrite Hgr. exact Ho.
+  - intros u w0 Hu. exfalso. assert (hnd (locof ls u) = Some (w0, Some n)) as Hu'.
+    { rewrite (locof_upd _ _ _ _ _ Hl) in Hu. destruct (Nat.eqb_spec u t) as [->|]; [rewrite (locof_at _ _ _ Hl); exact Hu|exact Hu]. }
+    destruct (b_own1 _ _ IB u w0 n Hu') as (_ & _ & C). rewrite (Run n Rn Rlt) in C. discriminate.
+  - intros gd Hi _. exfalso. apply Hin in Hi. tauto.
+  - unfold znd. rewrite Hgr. reflexivity.
+  - (* links *)
+    intros x Hx Hns. apply Hin in Hx. destruct Hx as [Hx Hxn].
+    assert (~ stale g ls x) as Hns' by (intros S; apply Hns, Hstale, S).
+    pose proof (b_link _ _ IB x Hx Hns') as L. unfold link_ok in *. unfold znx in *. rewrite Hgr.
+    destruct (znext (grec g x)) as [b|] eqn:Eb.
+    + destruct L as (A & B & C). rewrite !Hsq. assert (b <> n) as Hbn.
+      { intros ->. apply Hns'. 
+        destruct (Nat.lt_trichotomy (zsq g x) (zsq g a)) as [L1|[L1|L1]].
+        - exfalso. apply (Rbt x Hx). lia.
+        - assert (x = a) as Exa by (apply (zsq_inj g ls _ _ IB (inlog_In _ _ Hx) (inlog_In _ _ Ia) L1)). rewrite Exa.
+          exists t, w. rewrite (locof_at _ _ _ Hl), (pcof_at _ _ _ Hl). split; [exact Eh|reflexivity].
+        - exfalso. apply (C a Ia). lia. }
+      split; [apply Hin; tauto|split; [exact B|]]. intros c Hc. rewrite !Hsq. apply C. apply Hin in Hc. tauto.
+    + intros c Hc. rewrite !Hsq. apply L. apply Hin in Hc. tauto.
+  - intros u lu Hut Hu. split; [|split].
+    + intros Hul. left. destruct (own_facts g ls IA IB u lu Hu Hul) as (Iu & Ou & _).
+      apply (owned_not_pointer g ls IB t l n (own_rec lu) Hl eq_refl Iu Ou).
+    + intros m1 Hm1 E1 _. subst m1. exfalso.
+      assert (in_unlock (at_ lu) = true) as Hul by (destruct (at_ lu); try discriminate; reflexivity).
+      pose proof (b_thr _ _ IB u lu Hu) as Tu. unfold thrB in Tu.
+      assert (scan g (own_rec lu) n) as Sc by (destruct (at_ lu); try discriminate; cbn in Hm1; injection Hm1 as E2; rewrite E2 in Tu; tauto).
+      apply (scan_above_region g ls IA IB t u l lu n (own_rec lu) n); auto.
+    + intros m' Hm' _. apply (Hone u lu m' Hut Hu Hm').
+  - (* the new pointer *)
+    unfold p'. destruct nxt as [m|].
+    + destruct Ln as (Lm & Llt & Lbt).
+      assert (Hmn : m <> n) by (intros ->; lia).
+      assert (region g' a m) as Rm.
+      { unfold region. rewrite !Hsq. split; [apply Hin; auto|split; [fold a in Rlt; lia|split]].
+        - intros c Hc Hb. rewrite !Hsq in Hb. apply Hin in Hc. destruct Hc as [Hc Hcn].
+          destruct (Nat.lt_trichotomy (zsq g c) (zsq g n)) as [L1|[L1|L1]].
+          + apply (Lbt c Hc). lia.
+          + apply Hcn. apply (zsq_inj g ls _ _ IB (inlog_In _ _ Hc) (inlog_In _ _ Rn) L1).
+          + apply (Rbt c Hc). fold a. lia.
+        - intros c Hc Hlt. rewrite Hsq in Hlt. apply Hin in Hc. unfold zown. rewrite Hgr. apply Run; tauto. }
+      apply thrB_reclaim_at; [exact Rm|].
+      rewrite (oc_cs _ _ _ O m Hmn).
+      apply (inlog_constr g ls t l m IA IB Hl eq_refl); auto.
+      cbn. intros E. inversion E. auto.
+    + unfold thrB. cbn [at_]. intros c Hc Hlt. rewrite !Hsq in Hlt. apply Hin in Hc. destruct Hc as [Hc Hcn].
+      destruct (Nat.lt_trichotomy (zsq g c) (zsq g n)) as [L1|[L1|L1]].
+      * apply (Ln c Hc L1).
+      * apply Hcn. apply (zsq_inj g ls _ _ IB (inlog_In _ _ Hc) (inlog_In _ _ Rn) L1).
+      * apply (Rbt c Hc). change (zsq g c < zsq g a) in Hlt. lia.
+Qed.
